@@ -417,6 +417,37 @@ pub fn http_request(addr: SocketAddr, method: &str, target: &str, headers: &[(&s
 }
 
 //------------------------------------------------------------------------------------------
+// The routinator command line in a child process
+
+/// Body of `rvchild routinator …`: the steps of routinator's `main.rs` (prepare, parse the
+/// command line, build the configuration and the operation, run it) with its exit codes.
+pub fn child_routinator(args: &[String]) -> i32 {
+    use routinator::{Config, ExitError, Operation};
+    let run = || -> Result<(), ExitError> {
+        Operation::prepare()?;
+        let cur_dir = std::env::current_dir().map_err(|_| ExitError::Generic)?;
+        let argv = std::iter::once("routinator".to_string()).chain(args.iter().cloned());
+        let matches = Operation::config_args(Config::config_args(clap::Command::new("routinator"))).get_matches_from(argv);
+        let mut config = Config::from_arg_matches(&matches, &cur_dir)?;
+        let operation = Operation::from_arg_matches(&matches, &cur_dir, &mut config)?;
+        operation.run(config)
+    };
+    match run() {
+        Ok(()) => 0,
+        Err(ExitError::Generic) => 1,
+        Err(ExitError::IncompleteUpdate) => 2,
+        Err(ExitError::Invalid) => 3,
+    }
+}
+
+/// Runs the routinator command line in a child process; returns (exit code, stdout, stderr).
+pub fn run_routinator(args: &[String], cwd: &std::path::Path) -> (Option<i32>, Vec<u8>, Vec<u8>) {
+    let exe = std::env::current_exe().expect("current_exe").with_file_name("rvchild");
+    let out = std::process::Command::new(&exe).arg("routinator").args(args).current_dir(cwd).stdin(std::process::Stdio::null()).output().unwrap_or_else(|e| panic!("cannot run {}: {}", exe.display(), e));
+    (out.status.code(), out.stdout, out.stderr)
+}
+
+//------------------------------------------------------------------------------------------
 // String generators
 
 /// Characters that matter to some formatter, without ASCII digits (so a generated name can
